@@ -134,8 +134,8 @@ Definition inv_to_payload (t : itok) : node :=
        ++ opt_entry "iat" (option_map Int (ik_iat t))
        ++ opt_entry "cause" (option_map Link (ik_cause t))).
 
-Definition dlg_tag : str := lit "ucan/dlg@1.0.0-rc.1".
-Definition inv_tag : str := lit "ucan/inv@1.0.0-rc.1".
+Definition dlg_tag : str := src_dlg_tag.
+Definition inv_tag : str := src_inv_tag.
 
 (* what the constructors guarantee (validate + the option setters), and what makes a token sealable *)
 Definition did_ok (d : did) : Prop := did_parse (did_print d) = Ok d.
